@@ -10,6 +10,7 @@ import (
 	"crypto/tls"
 	"io"
 	"net"
+	"time"
 
 	"github.com/emersion/go-imap/v2"
 	"github.com/emersion/go-imap/v2/internal/imapwire"
@@ -498,6 +499,13 @@ func TrackerWF(t *SessionTracker) bool {
 //@   props C02:post C19:post
 //@   ensures __called("readSearchKey") && __failed("readSearchKey") ==> err != nil
 //@   ensures len(criteria.NotFlag) >= old(len(criteria.NotFlag)) && len(criteria.Flag) >= old(len(criteria.Flag))
+//@   ensures old(criteria.Larger) >= 0 && old(criteria.Smaller) >= 0 ==> criteria.Larger >= 0 && criteria.Smaller >= 0
+//@   ensures old(criteria.Larger) >= 0 && old(criteria.Smaller) >= 0 ==> forall size int64 :: imap.MatchLarger(size, criteria.Larger) ==> imap.MatchLarger(size, old(criteria.Larger))
+//@   ensures old(criteria.Larger) >= 0 && old(criteria.Smaller) >= 0 ==> forall size int64 :: imap.MatchSmaller(size, criteria.Smaller) ==> imap.MatchSmaller(size, old(criteria.Smaller))
+//@   ensures forall d time.Time :: imap.MatchSince(d, criteria.Since) ==> imap.MatchSince(d, old(criteria.Since))
+//@   ensures forall d time.Time :: imap.MatchBefore(d, criteria.Before) ==> imap.MatchBefore(d, old(criteria.Before))
+//@   ensures forall d time.Time :: imap.MatchSince(d, criteria.SentSince) ==> imap.MatchSince(d, old(criteria.SentSince))
+//@   ensures forall d time.Time :: imap.MatchBefore(d, criteria.SentBefore) ==> imap.MatchBefore(d, old(criteria.SentBefore))
 
 // readSearchKey is recursive through a closure handed to Decoder.ExpectList;
 // its frame (it only fills the criteria it is given) is assumed, not proved.
@@ -507,3 +515,5 @@ func TrackerWF(t *SessionTracker) bool {
 //@   trusted
 //@   modifies criteria
 //@   ensures old(dec.Err()) != nil ==> dec.Err() == old(dec.Err())
+
+var _ time.Time
